@@ -703,6 +703,8 @@ def hostile_script(rng, logdir):
             op['acts'] = list(op['acts']) + [['remote', 9000 + nreq[0], rng.choice(['t', '', 'caf\u00e9', 7, '%s']),
                                               rng.choice(['data', '', 42, -1, 2.5, True, 'caf\u00e9 \u2603', '%(x)s 100%',
                                                           ['a', 1], {'k': 'v'}, 'x' * 70000])]]
+        if rng.random() < 0.04:
+            op['acts'] = list(op['acts']) + [['jobstop', rng.randrange(4)]]     # SIGSTOP to a child: it is not dead
         if rng.random() < 0.5:
             op['outputs'] = [[rng.randrange(4), rng.choice([1, 2]), hostile_bytes()] for _ in range(rng.randrange(1, 3))]
         if rng.random() < 0.3:
@@ -803,6 +805,8 @@ def pool_script(rng):
         for a in op['acts']:
             if a[0] == 'rpc' and a[2] in ('start', 'stop', 'signal') and len(a) <= 6 and rng.random() < 0.5:
                 a[3] = n + rng.randrange(nl)
+        if rng.random() < 0.06:
+            op['acts'] = list(op['acts']) + [['jobstop', rng.randrange(4)]]     # SIGSTOP to a child: it is not dead
     return s
 
 
